@@ -321,6 +321,37 @@ orc_x86_load_constants_inner (OrcCompiler *c)
         break;
     }
   }
+
+  /* Resampling loads: every row starts again at the initial offset, and the
+   * rules expect the integer part of the offset to be folded into the
+   * source pointer already */
+  for (i = 0; i < c->n_insns; i++) {
+    OrcInstruction *insn = c->insns + i;
+    OrcStaticOpcode *opcode = insn->opcode;
+    OrcVariable *src = c->vars + insn->src_args[0];
+
+    if (strcmp (opcode->name, "ldreslinb") != 0
+        && strcmp (opcode->name, "ldreslinl") != 0
+        && strcmp (opcode->name, "ldresnearb") != 0
+        && strcmp (opcode->name, "ldresnearl") != 0)
+      continue;
+    if (!src->ptr_register || !src->ptr_offset)
+      continue;
+
+    if (c->vars[insn->src_args[1]].vartype == ORC_VAR_TYPE_PARAM) {
+      orc_x86_emit_mov_memoffset_reg (c, 4,
+          (int)ORC_STRUCT_OFFSET (OrcExecutor, params[insn->src_args[1]]),
+          c->exec_reg, src->ptr_offset);
+    } else {
+      orc_x86_emit_mov_imm_reg (c, 4,
+          c->vars[insn->src_args[1]].value.i, src->ptr_offset);
+    }
+    orc_x86_emit_mov_reg_reg (c, 4, src->ptr_offset, c->gp_tmpreg);
+    orc_x86_emit_sar_imm_reg (c, 4, 16, c->gp_tmpreg);
+    orc_x86_emit_add_reg_reg_shift (c, c->is_64bit ? 8 : 4, c->gp_tmpreg,
+        src->ptr_register, src->size == 4 ? 2 : 0);
+    orc_x86_emit_and_imm_reg (c, 4, 0xffff, src->ptr_offset);
+  }
 }
 
 static void
